@@ -606,7 +606,7 @@ fn dispose(h: usize, fut: BoxedHandle, keep: Option<Arc<Desync<Val>>>) {
 }
 
 fn await_boxed(h: usize, mut fut: BoxedHandle, keep: Option<Arc<Desync<Val>>>, once: bool) {
-    let waker = task_waker(Some(h));
+    let waker = if once { flag_waker(Some(h)) } else { task_waker(Some(h)) };
     let mut cx = Context::from_waker(&waker);
     {
         let s = ev("await_begin", h as i64, once as i64);
@@ -656,7 +656,7 @@ fn await_handle(h: usize, once: bool) {
         HandleSlot::Sched(f) => await_boxed(h, Box::pin(f), None, once),
         HandleSlot::Boxed(f, keep) => await_boxed(h, f, keep, once),
         HandleSlot::SuspendFut(mut f) => {
-            let waker = task_waker(Some(h));
+            let waker = if once { flag_waker(Some(h)) } else { task_waker(Some(h)) };
             let mut cx = Context::from_waker(&waker);
             let o = keep_obj(h);
             w().hrec[h].awaiting = Some(me());
@@ -767,7 +767,7 @@ fn block_on_next(out: usize, once: bool) {
             None => return,
         }
     };
-    let waker = task_waker(None);
+    let waker = if once { flag_waker(None) } else { task_waker(None) };
     let mut cx = Context::from_waker(&waker);
     if !once {
         w().outs[out].waiting = Some(me());
